@@ -198,6 +198,7 @@ class Run:
         self.zeros = set()
         self.known = {}
         self.cellinit = {}
+        self.refobj = {}
         self.nframe = 0
         self.depth = 0
         self.steps = 0
@@ -334,7 +335,9 @@ class Run:
                     # a field of an object held by value (or bound by reference): keyed on the cell; reads of a field never
                     # written are f(term of the object, field)
                     cur = self.store[blv]
-                    if isinstance(cur, tuple) and cur[0] == "ap" and cur[1].startswith("obj:") and len(cur) == 3:
+                    if blv in self.refobj and self.refobj[blv] == cur:
+                        base = cur
+                    elif isinstance(cur, tuple) and cur[0] == "ap" and cur[1].startswith("obj:") and len(cur) == 3:
                         base = cur[2]
                     else:
                         base = ("obj", blv)
@@ -497,6 +500,9 @@ class Run:
         if k == "predef":
             return ("s", "__func__")
         if k == "new":
+            ini = n.get("init")
+            if ini is not None and ini.get("k") == "ctor":
+                return ("ap", "new:" + (n.get("ty") or ""),) + tuple(self.ev(a, fr) for a in ini.get("args", []) if not (a is not None and a.get("k") == "defarg"))
             return ("ap", "new", ("s", n.get("ty") or ""))
         if k == "throw":
             self.status = "throw"
@@ -717,6 +723,8 @@ class Run:
                     v0 = self._load(lv)
                     nf.vars[key] = self.new_cell(v0, loc=v0)
                     nf.__dict__.setdefault("writeback", []).append((nf.vars[key], lv))
+                    if lv[0] == "hp":
+                        self.refobj[nf.vars[key]] = v0      # fields of the referenced object stay keyed on the object's own term
                     continue
             v0 = ts[i] if i < len(ts) else (self.ev(p.get("default"), fr) if p.get("default") else ("a", p["n"]))
             nf.vars[key] = self.new_cell(v0, loc=v0)
